@@ -50,6 +50,7 @@ func typedKey(id string) []byte { return boltz.PrependFieldType(boltz.TypeString
 func typedStr(v string) []byte { return boltz.PrependFieldType(boltz.TypeString, []byte(v)) }
 
 func mustBucket(tx *bbolt.Tx, create bool, path ...string) *bbolt.Bucket {
+	path = withBase(path)
 	b := tx.Bucket([]byte(path[0]))
 	for _, p := range path[1:] {
 		if b == nil {
